@@ -9,9 +9,10 @@ import StorageModel.Base.Bytes
   ixreg := nveto (stage id)*                  stage: b (ProcessBeforeUpdate) a (ProcessAfterUpdate) d (ProcessBeforeDelete); B A D: the veto is a RecordNotFoundError
            custom boltz.Constraint registered with AddConstraint on the parent / child store
   reg   := "l" style ntypes type*            style: t f u i     type: c u d (sync) C U D (async)
-         | "c" typed nveto (kind id)*        typed: t u (T U: vetoes with a RecordNotFoundError)   kind: c u d
+         | "c" typed nveto (kind id)*        typed: t u (T U: vetoes with a RecordNotFoundError; o: typed, its vetoes
+                                              apply only while the body runs for the first time)   kind: c u d
   tx    := "tx" mode reuse nsteps step*      mode: u b          reuse: 0 1
-  step  := "op" swallow fault op | "fail" tag | "ac" tag | "ap" tag fails | "nb" | "nB" | "ne" | "sys"
+  step  := "op" swallow fault op | "fail" tag | "fail1" tag (fails the first time the body executes it only) | "ac" tag | "ap" tag fails | "nb" | "nB" | "ne" | "sys"
            (nb / nB: nested Db.Update / Db.Batch with the bound context; sys: switch to the system context)
   fault := "-" | "lP"n | "lC"n | "pP"n | "pC"n
   op    := "cr" σ id fields rank | "up" σ id fields rank | "de" σ id | "dw" σ query
@@ -95,6 +96,11 @@ def veto : P (Kind × String) := fun ts => do
   let (id, ts) ← str ts
   pure ((k, id), ts)
 
+/-- is the registration a constraint of style `o` (vetoes on the first run of the body only)? -/
+def regIsOnce : List String → Bool
+  | "c" :: "o" :: _ => true
+  | _ => false
+
 def reg : P Reg := fun ts => do
   let (t, ts) ← tok ts
   match t with
@@ -116,6 +122,7 @@ def reg : P Reg := fun ts => do
       | "u" => some false
       | "T" => some true
       | "U" => some false
+      | "o" => some true
       | _ => none
     let (vs, ts) ← counted veto ts
     pure (.constraint typed vs, ts)
@@ -138,6 +145,19 @@ def ixVeto : P (Stage × String) := fun ts => do
   pure ((k, id), ts)
 
 def ixReg : P IxReg := counted ixVeto
+
+/-- registrations with the positions of the first-run-only constraints -/
+def regsOnce : Nat → Nat → P (List Reg × List Nat)
+  | 0, _, ts => some (([], []), ts)
+  | n + 1, k, ts => do
+    let once := regIsOnce ts
+    let (r, ts) ← reg ts
+    let ((rs, os), ts) ← regsOnce n (k + 1) ts
+    pure ((r :: rs, if once then k :: os else os), ts)
+
+def countedRegs : P (List Reg × List Nat) := fun ts => do
+  let (n, ts) ← nat ts
+  regsOnce n 0 ts
 
 def fault : P Fault := fun ts => do
   let (t, ts) ← tok ts
@@ -232,6 +252,9 @@ def step : P Step := fun ts => do
   | "fail" =>
     let (n, ts) ← nat ts
     pure (.fail n, ts)
+  | "fail1" =>
+    let (n, ts) ← nat ts
+    pure (.fail1 n, ts)
   | "ac" =>
     let (n, ts) ← nat ts
     pure (.addCommit n, ts)
@@ -266,6 +289,9 @@ structure Case where
   ixC : List IxReg
   regsD : List Reg
   ixD : List IxReg
+  onceP : List Nat
+  onceC : List Nat
+  onceD : List Nat
   txs : List TxSpec
 
 def parseCase (line : String) : Option Case := do
@@ -273,8 +299,8 @@ def parseCase (line : String) : Option Case := do
   let (e, ts) ← tok ts
   if e ≠ "E" then none
   else
-    let (rp, ts) ← counted reg ts
-    let (rc, ts) ← counted reg ts
+    let ((rp, op), ts) ← countedRegs ts
+    let ((rc, oc), ts) ← countedRegs ts
     let (txl, ts) ← nat ts
     let (t, ts) ← tok ts
     let ((ixp, ixc, t), ts) ←
@@ -284,18 +310,19 @@ def parseCase (line : String) : Option Case := do
         let (t, ts) ← tok ts
         pure ((ixp, ixc, t), ts)
       else pure (([], [], t), ts) : Option ((List IxReg × List IxReg × String) × List String))
-    let ((rd, ixd, t), ts) ←
+    let (((rd, od), ixd, t), ts) ←
       (if t = "D" then do
-        let (rd, ts) ← counted reg ts
+        let (rd, ts) ← countedRegs ts
         let (ixd, ts) ← counted ixReg ts
         let (t, ts) ← tok ts
         pure ((rd, ixd, t), ts)
-      else pure (([], [], t), ts) : Option ((List Reg × List IxReg × String) × List String))
+      else pure ((([], []), [], t), ts) : Option (((List Reg × List Nat) × List IxReg × String) × List String))
     if t ≠ "T" then none
     else
       let (txs, ts) ← counted txSpec ts
       if ts.isEmpty then
-        pure { regsP := rp, regsC := rc, txListeners := txl, ixP := ixp, ixC := ixc, regsD := rd, ixD := ixd, txs := txs }
+        pure { regsP := rp, regsC := rc, txListeners := txl, ixP := ixp, ixC := ixc, regsD := rd, ixD := ixd,
+               onceP := op, onceC := oc, onceD := od, txs := txs }
       else none
 
 /-! ## rendering -/
@@ -497,14 +524,14 @@ def modelLine (t : CrudReturns) (line : String) : String :=
   | some c =>
     if !t.recognised then "model-unknown"
     else
-      let env : Env := { regsP := c.regsP, regsC := c.regsC, txListeners := c.txListeners, t := t, ixP := c.ixP, ixC := c.ixC, regsD := c.regsD, ixD := c.ixD }
+      let env : Env := { regsP := c.regsP, regsC := c.regsC, txListeners := c.txListeners, t := t, ixP := c.ixP, ixC := c.ixC, regsD := c.regsD, ixD := c.ixD, onceP := c.onceP, onceC := c.onceC, onceD := c.onceD }
       " | ".intercalate (renderCase env [] (runCase env c.txs [] Ctx.empty))
 
 def specLine (line : String) : String :=
   match parseCase line with
   | none => "bad-case"
   | some c =>
-    let env : Env := { regsP := c.regsP, regsC := c.regsC, txListeners := c.txListeners, t := expectedReturns, ixP := c.ixP, ixC := c.ixC, regsD := c.regsD, ixD := c.ixD }
+    let env : Env := { regsP := c.regsP, regsC := c.regsC, txListeners := c.txListeners, t := expectedReturns, ixP := c.ixP, ixC := c.ixC, regsD := c.regsD, ixD := c.ixD, onceP := c.onceP, onceC := c.onceC, onceD := c.onceD }
     " | ".intercalate (renderSpecCase env [] (Spec.specCase env c.txs [] Ctx.empty))
 
 end StorageModel.Tx.Wire
